@@ -11,14 +11,17 @@ Local Open Scope N_scope.
    writes, moves, save/restore, erases, mode switches, titles and size changes:
    the glyphs the terminal has shown are, in order, exactly the elements
    streamed - glyph bytes, character set in effect and full rendition - and
-   every byte was glyph payload or part of a complete, known control function. *)
+   every byte was glyph payload or part of a complete, known control function.
+   Elements may be format effectors (a newline, carriage return, tab or
+   backspace inside a string): they show no glyph (`visible` drops them) and
+   the glyphs before and after them are still exactly as requested. *)
 Theorem C01_rendered :
   forall (cfg : vtcfg) (beh : behaviour),
     (b_unicode_all beh = true -> unicode_all cfg = true) ->
   forall (v0 : vt) (h : list hop),
     vt0_ok v0 -> wf_hist beh init_tstate h ->
     let v := snd (hrun cfg beh init_tstate v0 h) in
-    map snd (trace v) = rev (map display_of (hist_elems h)) ++ map snd (trace v0) /\
+    map snd (trace v) = rev (map display_of (visible (hist_elems h))) ++ map snd (trace v0) /\
     malformed v = false /\ unknown v = false /\ lex v = Ground.
 Proof.
   intros cfg beh Huni v0 h H0 Hwf v.
@@ -75,13 +78,14 @@ Definition ex_hist : list hop :=
    HOp (WElem (mkElem (mkGlyph CsDec 113 0 0) (mkAttr (CLow 1) (CHigh 100) IBold true false true)));
    HOp (Move (3, 1));
    HOp (WStr [mkElem (mkGlyph CsUtf8 226 152 186) default_attr;
+              mkElem (mkGlyph CsAscii 10 0 0) default_attr;     (* a newline inside the string *)
               mkElem (mkGlyph CsAscii 65 0 0) (mkAttr (CTrue 1 2 3) (CGrey 240) IFaint false true false)]);
    HOp (Erase ELineLeft); HOp Hide; HOp (Title [104; 105]);
    HOp (WRaw (mkElem (mkGlyph CsUk 35 0 0) default_attr))].
 Example C01_nonvacuous :
   vt0_ok vt0_junk /\ wf_hist ex_beh init_tstate ex_hist /\
-  length (hist_elems ex_hist) = 4%nat.
+  length (hist_elems ex_hist) = 5%nat /\ length (visible (hist_elems ex_hist)) = 4%nat.
 Proof.
-  split; [repeat split|]. split; [|reflexivity].
+  split; [repeat split|]. split; [|split; reflexivity].
   cbn. repeat split; try reflexivity; discriminate.
 Qed.
